@@ -350,7 +350,58 @@ fn http_table(ctx: &mut Ctx, status: u16) {
         Some(DItem::Err(s)) if s.code() == Code::FailedPrecondition => {}
         other => ctx.violation("trailers-precedence", format!("HTTP {} with grpc-status 9 in trailers gave {:?}", status, other.map(|g| match g { DItem::End => "end".to_string(), DItem::Err(s) => format!("{:?}", s.code()), DItem::Msg(_) => "msg".into() }))),
     }
+    // (c) a trailers block that carries no grpc-status leaves the HTTP status in charge
+    if status != 200 {
+        let mut t = HeaderMap::new();
+        t.insert("x-other", HeaderValue::from_static("1"));
+        let out = decode_run(RawDecoder { bs: (8192, 32768) }, vec![BStep::Trailers(t)], Dir::Response(status), Enc::Identity, None, 1, false, false);
+        match (http_code_table(status), out.seq.first()) {
+            (Some(c), Some(DItem::Err(s))) if s.code() == c => {}
+            (want, got) => ctx.violation("http-mapping", format!("HTTP {} with trailers that carry no grpc-status: want {:?}, got {:?}", status, want, got.map(|g| match g { DItem::End => "end (success)".to_string(), DItem::Err(s) => format!("{:?}", s.code()), DItem::Msg(_) => "msg".into() }))),
+        }
+    }
+    // (d) a grpc-status in the response HEADERS (Trailers-Only form) is the status, whatever the
+    //     HTTP status beside it: seen through the real client
+    #[cfg(feature = "full")]
+    {
+        use crate::exec::{Exec, Out};
+        let svc = HeadSvc { status, headers: vec![("grpc-status", "9".to_string()), ("grpc-message", "from%20headers".to_string())] };
+        let mut client = crate::pb::verif::verif_client::VerifClient::new(svc);
+        let mut ex = Exec::new();
+        match ex.block_on(10_000, client.unary(tonic::Request::new(crate::pb::Msg::default()))) {
+            Out::Done(Err(s)) if s.code() == Code::FailedPrecondition && s.message() == "from headers" => {}
+            Out::Done(other) => ctx.violation("headers-status-ignored", format!("HTTP {} with grpc-status 9 / grpc-message in the response headers gave {:?}", status, other.map(|_| "Ok").map_err(|s| format!("{:?}: {}", s.code(), s.message())))),
+            _ => ctx.violation("hang", "client call did not complete".into()),
+        }
+        ctx.count("http.header_status_through_client");
+    }
     ctx.fingerprint(format!("http|{}", status), status != 200);
+}
+
+/// Answers every request with a body-less response of the given HTTP status and headers.
+#[cfg(feature = "full")]
+#[derive(Clone)]
+struct HeadSvc {
+    status: u16,
+    headers: Vec<(&'static str, String)>,
+}
+#[cfg(feature = "full")]
+impl tower_service::Service<http::Request<tonic::body::Body>> for HeadSvc {
+    type Response = http::Response<tonic::body::Body>;
+    type Error = std::convert::Infallible;
+    type Future = std::future::Ready<Result<Self::Response, Self::Error>>;
+    fn poll_ready(&mut self, _: &mut std::task::Context<'_>) -> std::task::Poll<Result<(), Self::Error>> {
+        std::task::Poll::Ready(Ok(()))
+    }
+    fn call(&mut self, _req: http::Request<tonic::body::Body>) -> Self::Future {
+        let mut resp = http::Response::new(tonic::body::Body::default());
+        *resp.status_mut() = http::StatusCode::from_u16(self.status).expect("verif-harness-bug: status");
+        resp.headers_mut().insert("content-type", HeaderValue::from_static("application/grpc"));
+        for (k, v) in &self.headers {
+            resp.headers_mut().insert(*k, HeaderValue::from_str(v).expect("verif-harness-bug: header"));
+        }
+        std::future::ready(Ok(resp))
+    }
 }
 
 #[cfg(feature = "full")]
